@@ -473,6 +473,11 @@ end expr
 
 
 /-! ## statements and blocks -/
+/-- a statement of block form: what `ps_block` returns, and what the parts of control statements are -/
+def blockishP : PStmt → Bool
+  | .block _ _ => true | .ifb _ _ _ => true | .loop _ _ _ => true | .tryb _ _ _ => true | .preempt _ => true
+  | _ => false
+
 inductive OkS : Nat → PStmt → Prop
   | expr {ctx e} : OkE ctx e → OkS ctx (.expr e)
   | decl {ctx n t c init} : OkE ctx init → tyOK t = true → OkS ctx (.decl n t c init)
@@ -483,10 +488,10 @@ inductive OkS : Nat → PStmt → Prop
   | brk {ctx} : has ctx "LOOP" = true → OkS ctx .brk
   | cont {ctx} : has ctx "LOOP" = true → OkS ctx .cont
   | block {ctx ss p} : (∀ s ∈ ss, OkS ctx s) → OkS ctx (.block ss p)
-  | ifb {ctx c t e} : OkE ctx c → OkS (ctxIfBody ctx) t → OkS (ctxElse ctx) e → OkS ctx (.ifb c t e)
-  | loop {ctx c b k} : OkE ctx c → OkS (ctxWhileBody ctx) b → OkS ctx k → OkS ctx (.loop c b k)
-  | tryb {ctx b k h} : has ctx "YOU" = true → OkS (ctxTryBody ctx) b → OkS (ctxHandler ctx) h → OkS ctx (.tryb b k h)
-  | preempt {ctx b} : has ctx "DEFEAT" = true → OkS (ctxPreemptBody ctx) b → OkS ctx (.preempt b)
+  | ifb {ctx c t e} : OkE ctx c → OkS (ctxIfBody ctx) t → OkS (ctxElse ctx) e → blockishP t = true → blockishP e = true → OkS ctx (.ifb c t e)
+  | loop {ctx c b k} : OkE ctx c → OkS (ctxWhileBody ctx) b → OkS ctx k → blockishP b = true → blockishP k = true → OkS ctx (.loop c b k)
+  | tryb {ctx b k h} : has ctx "YOU" = true → OkS (ctxTryBody ctx) b → OkS (ctxHandler ctx) h → blockishP b = true → blockishP h = true → OkS ctx (.tryb b k h)
+  | preempt {ctx b} : has ctx "DEFEAT" = true → OkS (ctxPreemptBody ctx) b → blockishP b = true → OkS ctx (.preempt b)
 
 section stmt
 variable (en : Ending)
@@ -604,9 +609,9 @@ theorem psStmt_sound (fuel ctx : Nat) (ts : List Lexeme) (s : PStmt) (rest : Lis
       · exact psPlainStmt_sound en fuel ctx true ts s rest h
 
 structure BlockIH (n : Nat) : Prop where
-  codeBlock : ∀ ctx ts s rest, psCodeBlock en n ctx ts = .val s rest → OkS ctx s
-  items : ∀ ctx acc pre ts s rest, (∀ a ∈ acc, OkS ctx a) → psBlockItems en n ctx acc pre ts = .val s rest → OkS ctx s
-  blk : ∀ ctx ts s rest, psBlock en n ctx ts = .val s rest → OkS ctx s
+  codeBlock : ∀ ctx ts s rest, psCodeBlock en n ctx ts = .val s rest → OkS ctx s ∧ blockishP s = true
+  items : ∀ ctx acc pre ts s rest, (∀ a ∈ acc, OkS ctx a) → psBlockItems en n ctx acc pre ts = .val s rest → OkS ctx s ∧ blockishP s = true
+  blk : ∀ ctx ts s rest, psBlock en n ctx ts = .val s rest → OkS ctx s ∧ blockishP s = true
 
 theorem blockIH_zero : BlockIH en 0 := by
   refine ⟨?_, ?_, ?_⟩
@@ -615,21 +620,21 @@ theorem blockIH_zero : BlockIH en 0 := by
   · intro ctx ts s rest h; rw [psBlock] at h; cases h
 
 theorem codeBlock_succ {n : Nat} (ih : BlockIH en n) :
-    ∀ ctx ts s rest, psCodeBlock en (n + 1) ctx ts = .val s rest → OkS ctx s := by
+    ∀ ctx ts s rest, psCodeBlock en (n + 1) ctx ts = .val s rest → OkS ctx s ∧ blockishP s = true := by
   intro ctx ts s rest h
   rw [psCodeBlock] at h
   obtain ⟨_, m1, _, h2⟩ := bind_val h
   exact ih.items ctx [] false m1 s rest (fun a ha => by cases ha) h2
 
 theorem items_succ {n : Nat} (ih : BlockIH en n) :
-    ∀ ctx acc pre ts s rest, (∀ a ∈ acc, OkS ctx a) → psBlockItems en (n + 1) ctx acc pre ts = .val s rest → OkS ctx s := by
+    ∀ ctx acc pre ts s rest, (∀ a ∈ acc, OkS ctx a) → psBlockItems en (n + 1) ctx acc pre ts = .val s rest → OkS ctx s ∧ blockishP s = true := by
   intro ctx acc pre ts s rest hacc h
   rw [psBlockItems] at h
   obtain ⟨close, m1, _, h2⟩ := bind_val h
   cases close with
   | some _ =>
     obtain ⟨rfl, _⟩ := pure_val h2
-    exact .block (fun a ha => hacc a (List.mem_reverse.1 ha))
+    exact ⟨.block (fun a ha => hacc a (List.mem_reverse.1 ha)), rfl⟩
   | none =>
     obtain ⟨st, m2, h3, h4⟩ := bind_val h2
     cases st with
@@ -650,11 +655,11 @@ theorem items_succ {n : Nat} (ih : BlockIH en n) :
         obtain ⟨b, m4, h6, h7⟩ := bind_val h5
         exact ih.items ctx (b :: acc) _ m4 s rest (fun a ha => by
           rcases List.mem_cons.1 ha with rfl | ha
-          · exact ih.blk ctx m3 _ m4 (expect_val h6)
+          · exact (ih.blk ctx m3 _ m4 (expect_val h6)).1
           · exact hacc a ha) h7
 
 theorem block_succ {n : Nat} (ih : BlockIH en n) :
-    ∀ ctx ts s rest, psBlock en (n + 1) ctx ts = .val s rest → OkS ctx s := by
+    ∀ ctx ts s rest, psBlock en (n + 1) ctx ts = .val s rest → OkS ctx s ∧ blockishP s = true := by
   intro ctx ts s rest h
   rw [psBlock] at h
   dsimp only at h
@@ -675,10 +680,11 @@ theorem block_succ {n : Nat} (ih : BlockIH en n) :
     | some _ =>
       obtain ⟨e, m6, h9, h10⟩ := bind_val h8
       obtain ⟨rfl, _⟩ := pure_val h10
-      exact .ifb hc hb (ih.blk _ m5 e m6 (expect_val h9))
+      have he := ih.blk _ m5 e m6 (expect_val h9)
+      exact ⟨.ifb hc hb.1 he.1 hb.2 he.2, rfl⟩
     | none =>
       obtain ⟨rfl, _⟩ := pure_val h8
-      exact .ifb hc hb (.block (fun a ha => by cases ha))
+      exact ⟨.ifb hc hb.1 (.block (fun a ha => by cases ha)) hb.2 rfl, rfl⟩
   · -- while
     rename_i rest1 _
     obtain ⟨_, m1, _, h2⟩ := bind_val h
@@ -686,8 +692,9 @@ theorem block_succ {n : Nat} (ih : BlockIH en n) :
     obtain ⟨_, m3, _, h5⟩ := bind_val h4
     obtain ⟨body, m4, h6, h7⟩ := bind_val h5
     obtain ⟨rfl, _⟩ := pure_val h7
-    exact .loop ((exprIH en n).xTop ctx m1 c m2 (expect_val h3)) (ih.blk _ m3 body m4 (expect_val h6))
-      (.block (fun a ha => by cases ha))
+    have hb := ih.blk _ m3 body m4 (expect_val h6)
+    exact ⟨.loop ((exprIH en n).xTop ctx m1 c m2 (expect_val h3)) hb.1
+      (.block (fun a ha => by cases ha)) hb.2 rfl, rfl⟩
   · -- for
     rename_i rest1 _
     obtain ⟨_, m1, _, h2⟩ := bind_val h
@@ -699,7 +706,8 @@ theorem block_succ {n : Nat} (ih : BlockIH en n) :
     obtain ⟨_, m7, _, h11⟩ := bind_val h10
     obtain ⟨body, m8, h12, h13⟩ := bind_val h11
     obtain ⟨rfl, _⟩ := pure_val h13
-    have hbody : OkS (ctxWhileBody ctx) body := ih.blk _ m7 body m8 (expect_val h12)
+    have hbody0 := ih.blk _ m7 body m8 (expect_val h12)
+    have hbody : OkS (ctxWhileBody ctx) body := hbody0.1
     have hcond : OkE ctx (c.getD (.bool true)) := by
       cases c with
       | none => exact .bool
@@ -713,7 +721,7 @@ theorem block_succ {n : Nat} (ih : BlockIH en n) :
       rcases opt_val h9 with ⟨h0, _⟩ | ⟨a, ha, hp⟩
       · cases h0
       · cases ha; exact psPlainStmt_sound en n ctx false m5 _ _ hp
-    refine .block (fun a ha => ?_)
+    refine ⟨.block (fun a ha => ?_), rfl⟩
     rcases List.mem_append.1 ha with ha | ha
     · cases init with
       | none => cases ha
@@ -723,13 +731,12 @@ theorem block_succ {n : Nat} (ih : BlockIH en n) :
         · cases h0
         · cases ha'; exact psPlainStmt_sound en n ctx true m1 _ _ hp
     · simp only [List.mem_singleton] at ha; subst ha
-      refine .loop hcond hbody ?_
       cases cont with
-      | none => exact .block (fun a ha => by cases ha)
+      | none => exact .loop hcond hbody (.block (fun a ha => by cases ha)) hbody0.2 rfl
       | some k =>
-        exact .block (fun a ha => by
+        exact .loop hcond hbody (.block (fun a ha => by
           simp only [List.mem_singleton] at ha; subst ha
-          exact hcontK _ rfl)
+          exact hcontK _ rfl)) hbody0.2 rfl
   · -- try
     rename_i rest1 _
     by_cases hy : has ctx "YOU" = true
@@ -738,7 +745,9 @@ theorem block_succ {n : Nat} (ih : BlockIH en n) :
       obtain ⟨k, m2, _, h3⟩ := bind_val h2
       obtain ⟨hd, m3, h4, h5⟩ := bind_val h3
       obtain ⟨rfl, _⟩ := pure_val h5
-      exact .tryb hy (ih.blk _ rest1 body m1 (expect_val h1)) (ih.blk _ m2 hd m3 (expect_val h4))
+      have hb1 := ih.blk _ rest1 body m1 (expect_val h1)
+      have hb2 := ih.blk _ m2 hd m3 (expect_val h4)
+      exact ⟨.tryb hy hb1.1 hb2.1 hb1.2 hb2.2, rfl⟩
     · simp only [Bool.not_eq_true] at hy
       simp only [hy, Bool.not_false, if_true] at h; cases h
   · -- preempt
@@ -747,7 +756,8 @@ theorem block_succ {n : Nat} (ih : BlockIH en n) :
     · simp only [hd, Bool.not_true, Bool.false_eq_true, if_false] at h
       obtain ⟨body, m1, h1, h2⟩ := bind_val h
       obtain ⟨rfl, _⟩ := pure_val h2
-      exact .preempt hd (ih.blk _ _ body m1 (expect_val h1))
+      have hb1 := ih.blk _ _ body m1 (expect_val h1)
+      exact ⟨.preempt hd hb1.1 hb1.2, rfl⟩
     · simp only [Bool.not_eq_true] at hd
       simp only [hd, Bool.not_false, if_true] at h; cases h
 
@@ -812,7 +822,7 @@ theorem psFunc_sound (fuel : Nat) (ts : List Lexeme) (f : PFunc) (rest : List Le
   obtain ⟨_, m5, _, h6⟩ := bind_val h5
   obtain ⟨body, m6, h7, h8⟩ := bind_val h6
   obtain ⟨rfl, _⟩ := pure_val h8
-  have := (blockIH en fuel).codeBlock _ m5 body m6 (expect_val h7)
+  have := ((blockIH en fuel).codeBlock _ m5 body m6 (expect_val h7)).1
   refine ⟨by cases fl <;> exact this, ?_, psParams_val en fuel _ ps _ hps⟩
   rcases dataTypeTok_val hrt with h1 | h1
   · exact Or.inl (scalar_tyOK h1)
@@ -1007,20 +1017,20 @@ theorem rulesS_of_ok {c : Nat} {s : PStmt} (h : OkS c s) : ∀ p, Rel c p = true
   | brk hl => intro p hr; exact .brk (by rw [← (rel_facts hr).2.2.2.2]; exact hl)
   | cont hl => intro p hr; exact .cont (by rw [← (rel_facts hr).2.2.2.2]; exact hl)
   | block _ ih => intro p hr; exact .block (fun a ha => ih a ha p hr)
-  | ifb hc _ _ ih1 ih2 =>
+  | ifb hc _ _ _ _ ih1 ih2 =>
     intro p hr
     have hst := rel_steps _ (rel_facts hr).1 p (mem_allPos p) hr
     exact .ifb (rulesE_of_ok hc p hr) (ih1 p hst.1) (ih2 p hst.2.1)
-  | loop hc _ _ ih1 ih2 =>
+  | loop hc _ _ _ _ ih1 ih2 =>
     intro p hr
     have hst := rel_steps _ (rel_facts hr).1 p (mem_allPos p) hr
     exact .loop (rulesE_of_ok hc p hr) (ih1 _ hst.2.2.1) (ih2 p hr)
-  | tryb hy _ _ ih1 ih2 =>
+  | tryb hy _ _ _ _ ih1 ih2 =>
     intro p hr
     have hf := rel_facts hr
     have hst := (rel_steps _ hf.1 p (mem_allPos p) hr).2.2.2.2.1 hy
     exact .tryb (by rw [← hf.2.2.1]; exact hy) (ih1 _ hst.1) (ih2 p hst.2.1)
-  | preempt hd _ ih =>
+  | preempt hd _ _ ih =>
     intro p hr
     have hf := rel_facts hr
     have hst := (rel_steps _ hf.1 p (mem_allPos p) hr).2.2.2.2.2 hd
